@@ -191,7 +191,8 @@ class Framer(tasking.Tasker):
             self.exitAll()
 
         for frame in self.frameNames.values():
-            prunables = [aux for aux in frame.auxes if aux.insular]
+            # every clone below is fixed to this framer and dies with it, named ones too
+            prunables = [aux for aux in frame.auxes if not aux.original]
             for aux in prunables:
                 aux.prune()
                 frame.auxes.remove(aux)
